@@ -20,7 +20,7 @@ DECIDES = ("Decided: the guards that make an ill-scoped or ill-mutable reference
            "what it returns, reserved words are removed from both pools, args.py applies it for the target language) and "
            "a data check of the resource files against the hard keywords of Java 17, Kotlin, Groovy 4 and Scala 3; callees "
            "generated for a type with type variables stay in their scope, and after type parameters are removed from scope "
-           "every remaining bound is rewritten by recursive substitution with the removal map.")
+           "every remaining bound is rewritten by recursive substitution with the removal map. Also: the counter behind lambda shadow names is one monotone stream bound once in __init__.")
 NOT_DECIDED = ("closedness of each generated program (depends on the symbol table behaving as C16 states on the "
                "histories the generator produces, and on arities/visibility computed at run time).")
 
